@@ -661,6 +661,8 @@ class Polygon(Shape2D):
         For more generic information about form factors, see
         `Shape.compute_form_factor_amplitude`.
         """
+        # Integer wave vectors would overflow in the squares below.
+        q = np.asarray(q, dtype=np.float64)
         form_factor = np.zeros((len(q),), dtype=np.complex128)
 
         # All the q vectors must be projected onto the plane of the polygon before they
